@@ -131,7 +131,7 @@ func genCase(t *rapid.T) Case {
 		s := Step{Op: "roundtrip", In: genInput(t), Dst: rapid.IntRange(0, 9).Draw(t, "dst")}
 		// LZ4's Decode never returns on invalid input (it doubles its buffer on every
 		// error): no failed-decode outcome exists to put in a history, see DESIGN C20.
-		if c.Codec != "lz4" && c.Codec != "uncompressed" && rapid.IntRange(0, 3).Draw(t, "bad") == 0 {
+		if c.Codec != "uncompressed" && rapid.IntRange(0, 3).Draw(t, "bad") == 0 {
 			s.Op = "baddecode"
 			s.Bad = []string{"random", "truncate", "flip"}[rapid.IntRange(0, 2).Draw(t, "badkind")]
 			s.BadAt = rapid.IntRange(0, 999).Draw(t, "badat")
@@ -337,7 +337,7 @@ var spec = &kit.Spec[Case]{
 		"with dst in {nil, len 0 small cap, exact cap, large dirty, a sub-slice of the previous output}, interleaved with failing decodes (random bytes, truncated or bit-flipped valid streams); optionally the same history runs on 4 or 8 goroutines sharing the codec value. " +
 		"Oracle: Decode(Encode(x)) == x at every step, inputs unmodified, Encode's output is decoded to x by the independent decompressor of harness/ref, nothing panics, failed decodes leave no trace. Non-trivial = a failed decode precedes a round trip, or dst aliases an earlier output, or the run is concurrent.",
 	Assumptions: []string{
-		"LZ4 raw and uncompressed get no failing-decode steps: lz4.Decode never returns on invalid input (it doubles its buffer on every error), so there is no 'earlier failed call' to put in a history; the property does not speak about termination on invalid input",
+		"uncompressed gets no failing-decode steps (every input decodes); LZ4 raw gets them since finding F67 was repaired (before, lz4.Decode never returned on an undecodable block), including crafted blocks with an invalid match offset",
 		"snappy and zstd failing decodes keep the first 16 bytes of the stream intact (length fields there make the upstream decoders allocate gigabytes before validating)",
 		"the outcome of a failing decode (error or garbage) is not asserted, only that it returns, does not panic and does not affect later calls",
 	},
